@@ -85,7 +85,7 @@ def run(ctx):
     dec = {f.name: f for f in P.functions("decoder.c") if f.file.endswith("decoder.c")}
 
     # ---- RING ------------------------------------------------------------------------------
-    r1 = ctx.rule("RING.index", "every row offset / subscript into mfc_buf, feat_buf, framepos and the live cepstrum buffer whose index derives from a ring cursor is in [0, length) on every path; every cursor increment is wrapped before the function returns", floor=14)
+    r1 = ctx.rule("RING.index", "every row offset / subscript into mfc_buf, feat_buf, framepos and the live cepstrum buffer whose index derives from a ring cursor is in [0, length) on every path; every cursor increment is wrapped before the function returns", floor=10)
     for n in ("acmod_process_raw", "acmod_process_float32", "acmod_process_mfcbuf", "acmod_end_utt"):
         ring_rule(ctx, r1, ac[n], MFC)
     # whole-utterance paths fill mfc_buf linearly from 0 (nvec), outside the ring rule
